@@ -19,7 +19,7 @@ RULE = ("random factor pairs over a 6-variable universe (scopes disjoint/nested/
         "normalize/scalars/get_value/set_value/assignment/identity/factor_product/factor_sum_product/==/hash "
         "in-place and out-of-place, with operand snapshots before/after and after mutating the result; 'perm' cases "
         "run every axis permutation of both operands (<=4 variables); 'eq' cases probe == just inside/outside "
-        "atol+rtol|b| and under axis/state permutations; 'err' cases the rejection paths; 'fdict' cases: two FactorDicts over the same cliques whose same-scope factors list the variables in DIFFERENT axis orders (equal and unequal cardinalities): dot (both directions, self) against the model (total of the modelled product table) and the brute-force sum over named assignments of f*g, dict +/- against the modelled DiscreteFactor.sum, const*/+number, <d1,d1-d2> bilinearity, from_dataframe against row counts; 'fset' cases FactorSet product/divide/marginalize (in place and out of place), factorset_product/factorset_divide, copy, the copying constructor, and FactorDict const*, +number, +, -, dot, product on sets of pairwise distinct factors, compared with a Python brute force over named assignments (a FactorSet is the multiset of its factors; not modelled in Coq beyond the store-model purity theorem), with operand snapshots, `is`-sharing checks and mutation of the result (in-place marginalize, values += 1, field rebinding on every member factor); numpy and torch backends. "
+        "atol+rtol|b| and under axis/state permutations; 'err' cases the rejection paths; 'alias' cases: the SAME object as both operands of product/sum/divide (method, operator, in place, in place twice) for factors whose variable order differs from set iteration order (descending small ints, strings under several hash seeds), equal and unequal cardinalities, asymmetric tables; factor_sum_product and factor_product on lists with value-equal factors (same object twice, equal copy, equal content in another axis order, f-g-f, three equal): the model and the brute force count multiplicity (a FactorSet is a Python set and FactorDict.product goes through one: equal members collapse there by construction, the D2 family recorded elsewhere); 'fdict' cases: two FactorDicts over the same cliques whose same-scope factors list the variables in DIFFERENT axis orders (equal and unequal cardinalities): dot (both directions, self) against the model (total of the modelled product table) and the brute-force sum over named assignments of f*g, dict +/- against the modelled DiscreteFactor.sum, const*/+number, <d1,d1-d2> bilinearity, from_dataframe against row counts; 'fset' cases FactorSet product/divide/marginalize (in place and out of place), factorset_product/factorset_divide, copy, the copying constructor, and FactorDict const*, +number, +, -, dot, product on sets of pairwise distinct factors, compared with a Python brute force over named assignments (a FactorSet is the multiset of its factors; not modelled in Coq beyond the store-model purity theorem), with operand snapshots, `is`-sharing checks and mutation of the result (in-place marginalize, values += 1, field rebinding on every member factor); numpy and torch backends. "
         "GENERALISATION CLASSES: A sessions - 'session' cases run 5-8 IN-PLACE operations (product/sum/divide/marginalize/maximize/reduce/normalize/scalar */+/set_value, with observe steps str/repr/scope/get_cardinality/copy/hash/==/identity_factor/sample that must not change the object) on ONE factor object, the model following step by step, after every step: literal comparison, == a freshly built object in both directions, a changed object must change its hash; B argument purity - 'purity' cases snapshot every caller argument (variables list/tuple, cardinality list/ndarray, values list/tuple/ndarray flat/shaped/other.values/reused buffer/torch tensor, state_names dict and inner lists, marginalize/maximize/reduce/get_cardinality/assignment arguments, the from_dataframe frame) before/after the call and after wrecking the result, and reuse the same argument object for a second call on other data; C result independence - every out-of-place result is mutated and operands re-compared, the same call is repeated and must give a distinct, correct object; D pandas - FactorDict.from_dataframe with RangeIndex/shifted/permuted/gapped/duplicate/string index, shuffled column order, an unused column, int/str/bool/categorical(with unused categories)/constant columns, substring column names, compared with row counts (DiscreteFactor.sample only as a no-mutation/columns check: its law is C07's); E names - variable name styles str/int/tuple/substr (x1,x10,x,x11..)/mixed int+str+tuple in one factor (factor_sum_product rejects mutually unorderable names: opt_einsum documents comparable labels - tolerated exactly there), no format keywords exist in these files; F state names - default, permuted/shifted ints, str, tuple, mixed, bool (True/False), names equal across variables; operands disagreeing on a shared variable's state list are outside the property's stated precondition; G sizes - 'big' cases with 9-10 variables per factor out of 12 (small-int, int, str, mixed names), cardinality 1, zero-variable factors, empty argument lists, == with explicit atol 0 / 2^-10 / 1; H magnitudes - 'mag' cases with per-entry exponents 2^-480..2^480 compared purely RELATIVELY (1e-9) to the model's exact value, == inside/outside rtol at these magnitudes, totals down to 2^-480 (inputs chosen so results stay in the normal float range: under/overflow is not modelled; numpy only, because torch.Tensor(list) passes through float32 - torch cases use float32-exact dyadic values); I backends - every stream numpy and torch except mag and from_dataframe; J variants - inplace True/False for every method, operators and reflected operators, show_warnings, atol; K rejected calls - a LATER invalid argument after valid ones for marginalize/maximize/reduce out of place (operand unchanged) and in place for up-front rejections (object unchanged); in-place calls rejected late (bad state number, duplicate variable) leave pgmpy's object half-modified - outside the property text, reported, not flagged; L orders - hash seeds, every axis order, state_names dict key order != variable order, evidence/variable list orders, set orders as model parameters; M budget - tools/check.py.  Each op is compared literally with the model (variable order, cardinalities, shape, flat table, state-name "
         "dict) and with the brute-force named-assignment definition.  Non-trivial: at least one operand with >= 2 "
         "variables of unequal cardinality or a permuted state list; distinct = distinct canonical case content")
@@ -170,6 +170,7 @@ def cases(tier, seed):
     npair, nperm, neq, nerr = (420, 40, 160, 60) if tier == "quick" else (4200, 400, 1600, 300)
     nalign = 80 if tier == "quick" else 800
     nfset = 120 if tier == "quick" else 1200
+    nalias = 100 if tier == "quick" else 1000
     nfdict = 120 if tier == "quick" else 1600
     nsess, npure, nbig, nmag = (100, 60, 16, 60) if tier == "quick" else (1000, 600, 160, 600)
     for i in range(npair):
@@ -323,6 +324,25 @@ def cases(tier, seed):
             H_["exp"] = [rng.randint(lo, hi) for _ in H_["vals"]]
         out.append({"kind": "mag", "backend": "numpy", "U": U, "rel": rel, "f": F, "g": G, "neg": False,
                     "qseed": rng.randint(0, 10**9)})
+    # aliasing / multiplicity: the SAME object as both operands of every binary operation (in and out of place), and
+    # factor lists that contain value-equal factors (same object twice, equal copies, equal content in another axis
+    # order): products count multiplicity
+    for i in range(nalias):
+        if i % 2 == 0:
+            cards = [rng.choice([2, 3])] * 6
+        else:
+            cards = [2, 3, 4, 2, 3, 1]
+            rng.shuffle(cards)
+        U = gen_universe(rng, cards=cards)
+        U["vstyle"] = rng.choice(["smallint", "smallint", "str", "int", "substr", "tuple"])
+        k = rng.choice([2, 2, 3])
+        fv = rng.sample(range(6), k)
+        if U["vstyle"] == "smallint" and rng.random() < 0.6:
+            fv = sorted(fv, reverse=True)           # e.g. [2, 1]: not the iteration order of the set {1, 2}
+        F = gen_factor(rng, U, fv, zeros=0.15)
+        gv = rng.sample(range(6), rng.randint(1, 2))
+        out.append({"kind": "alias", "backend": "torch" if i % 4 == 3 else "numpy", "U": U, "f": F,
+                    "g": gen_factor(rng, U, gv, zeros=0.2), "qseed": rng.randint(0, 10**9)})
     for i in range(nerr):
         U = gen_universe(rng)
         fv = rng.sample(range(6), rng.randint(1, 3))
@@ -1997,6 +2017,132 @@ def run_mag(case, drv):
     return ok(nontrivial=True, key=common.canon_key(["mag", U, F, G]), tags=ctx.tags, note="%d ops" % ctx.nops)
 
 
+# ------------------------------------------------------------------ aliasing and multiplicity
+def run_alias(case, drv):
+    from pgmpy.factors import factor_product, FactorDict
+    from pgmpy.factors.base import factor_sum_product
+    U, F, G = case["U"], case["f"], case["g"]
+    rng = random.Random(case["qseed"])
+    N = lambda v: vname(U["vstyle"], v)
+    fv = F["vars"]
+    fw, gw = wire(U, F), wire(U, G)
+    tf, tg = spec_table(U, F), spec_table(U, G)
+    tags = ["alias", "backend=" + case["backend"], "vars=" + U["vstyle"], "nvars=%d" % len(fv),
+            "cards=" + ("equal" if len({U["card"][v] for v in fv}) == 1 else "unequal")]
+    nops = 0
+    probe = build(U, F)
+    if [vid(U["vstyle"], v) for v in set(probe.variables)] != fv:
+        tags.append("variable-order != set-iteration-order")
+    # ---- the same object on both sides
+    specs = {"product": {k: x * x for k, x in tf.items()}, "sum": {k: x + x for k, x in tf.items()},
+             "divide": {k: xdiv(x, x) for k, x in tf.items()}}
+
+    def model_self(op, r):
+        if op == "product":
+            return drv.call("c04_product", [fw, fw, vids(U, r)])
+        if op == "sum":
+            return drv.call("c04_sum", [fw, fw, [], []])
+        return drv.call("c04_divide", [fw, fw, []])
+
+    for op in ("product", "sum", "divide"):
+        variants = [("method", lambda p: getattr(p, op)(p, inplace=False)),
+                    ("operator", {"product": lambda p: p * p, "sum": lambda p: p + p, "divide": lambda p: p / p}[op])]
+        for vn, call in variants:
+            phi = build(U, F)
+            s0 = snapshot(phi)
+            try:
+                r = call(phi)
+            except (ValueError, KeyError, IndexError, TypeError, RuntimeError) as e:
+                return bad("impl!=model:self-%s:%s:raised" % (op, vn), {"exc": repr(e)[:200], "f": F})
+            nops += 1
+            tags.append("op=self-%s-%s" % (op, vn))
+            d = cmp_literal(U, r, model_self(op, r)) or cmp_spec(U, r, specs[op])
+            if d:
+                return bad("impl!=model:self-%s:%s:%s" % (op, vn, d["what"]), {"diff": d, "f": F})
+            if snapshot(phi) != s0:
+                return bad("operand-mutated:self-%s:%s" % (op, vn), {"f": F})
+            if r is phi or r.values is phi.values or r.variables is phi.variables:
+                return bad("result-aliases-operand:self-%s:%s" % (op, vn), {"f": F})
+        # in place: phi.op(phi, inplace=True)
+        phi = build(U, F)
+        try:
+            getattr(phi, op)(phi, inplace=True)
+        except (ValueError, KeyError, IndexError, TypeError, RuntimeError) as e:
+            return bad("impl!=model:self-%s:inplace:raised" % op, {"exc": repr(e)[:200], "f": F})
+        nops += 1
+        tags.append("op=self-%s-inplace" % op)
+        d = cmp_literal(U, phi, model_self(op, phi)) or cmp_spec(U, phi, specs[op])
+        if d:
+            return bad("impl!=model:self-%s:inplace:%s" % (op, d["what"]), {"diff": d, "f": F})
+        # a second in-place round on the already squared / doubled object (session on the aliased object)
+        if op != "divide":
+            cur = wire_of_model(model_self(op, phi))
+            getattr(phi, op)(phi, inplace=True)
+            m2 = (drv.call("c04_product", [cur, cur, vids(U, phi)]) if op == "product" else drv.call("c04_sum", [cur, cur, [], []]))
+            d = cmp_literal(U, phi, m2)
+            if d:
+                return bad("impl!=model:self-%s:inplace-twice:%s" % (op, d["what"]), {"diff": d, "f": F})
+    # ---- lists with value-equal factors: multiplicity counts
+    perm = list(range(len(fv)))
+    while perm == list(range(len(fv))):
+        rng.shuffle(perm)
+    Fp = permute_factor(U, F, perm)
+    fpw = wire(U, Fp)
+    union_fg = fv + [v for v in G["vars"] if v not in fv]
+    lists = [
+        ("same-object-twice", lambda f, c, p, g: [f, f], [fw, fw], [tf, tf], fv),
+        ("equal-copy", lambda f, c, p, g: [f, c], [fw, fw], [tf, tf], fv),
+        ("equal-other-axis-order", lambda f, c, p, g: [f, p], [fw, fpw], [tf, tf], fv),
+        ("f-g-f", lambda f, c, p, g: [f, g, f], [fw, gw, fw], [tf, tg, tf], union_fg),
+        ("three-equal", lambda f, c, p, g: [f, c, p], [fw, fw, fpw], [tf, tf, tf], fv),
+    ]
+    specF = {"vars": fv}
+    for name, mk, ws, ts, union in lists:
+        scopes = [w[0] for w in ws]
+        objs = lambda: mk(build(U, F), build(U, F), build(U, Fp), build(U, G))
+        full = {}
+        for k in all_named(U, union):
+            x = Fr(1)
+            for t, sc in zip(ts, scopes):
+                x *= t[restrict(k, sc)]
+            full[k] = x
+        # factor_sum_product
+        outv = rng.sample(union, rng.randint(0, len(union)))
+        spec = {}
+        for k, x in full.items():
+            kk = restrict(k, outv)
+            spec[kk] = spec.get(kk, 0) + x
+        lst = objs()
+        sn0 = [snapshot(o) for o in lst]
+        try:
+            r = factor_sum_product([N(v) for v in outv], lst)
+        except (ValueError, KeyError, IndexError, TypeError, RuntimeError) as e:
+            return bad("impl!=model:factor_sum_product:%s:raised" % name, {"exc": repr(e)[:200], "f": F})
+        nops += 1
+        tags.append("op=factor_sum_product:" + name)
+        m = drv.call("c04_factor_sum_product", [outv, ws])
+        d = cmp_literal(U, r, m) or cmp_spec(U, r, spec)
+        if d:
+            return bad("impl!=model:factor_sum_product:%s:%s" % (name, d["what"]), {"diff": d, "f": F, "g": G, "out": outv})
+        if [snapshot(o) for o in lst] != sn0:
+            return bad("operand-mutated:factor_sum_product:%s" % name, {"f": F})
+        # factor_product (fold): replay to read the intermediate set orders
+        lst = objs()
+        acc, orders = lst[0], []
+        for o in lst[1:]:
+            acc = acc * o
+            orders.append(vids(U, acc))
+        lst = objs()
+        r = factor_product(*lst)
+        nops += 1
+        tags.append("op=factor_product:" + name)
+        m = drv.call("c04_factor_product", [ws, orders])
+        d = cmp_literal(U, r, m) or cmp_spec(U, r, full)
+        if d:
+            return bad("impl!=model:factor_product:%s:%s" % (name, d["what"]), {"diff": d, "f": F, "g": G})
+    return ok(nontrivial=True, key=common.canon_key(["alias", U, F, G, case["backend"]]), tags=tags, note="%d ops" % nops)
+
+
 def run_case(case, drv):
     from pgmpy import config
     backend = case.get("backend", "numpy")
@@ -2013,6 +2159,8 @@ def run_case(case, drv):
             return run_fset(case, drv)
         if case["kind"] == "fdict":
             return run_fdict(case, drv)
+        if case["kind"] == "alias":
+            return run_alias(case, drv)
         if case["kind"] == "session":
             return run_session(case, drv)
         if case["kind"] == "purity":
